@@ -11,3 +11,14 @@ package icmodule
 //@   pure
 //@   requires v != nil
 //@   ensures res != nil && fresh(res) && big(res) == tdiv(bigmul(big(v), r), 10000)
+
+// C34: the world as seen by the staking operations
+//@ property C34
+//@ func (c WorldContext) Deposit(address, amount, opType) (err)
+//@   iface
+//@   trusted
+//@   modifies *
+//@ func (c CallContext) Withdraw(address, amount, opType) (err)
+//@   iface
+//@   trusted
+//@   modifies *
